@@ -30,6 +30,9 @@ P1(pdf, xs) == IF pdf.kind = "fam" THEN Pdf1(pdf.comps, xs) ELSE [w |-> pdf.w, t
 P2(pdf, xs) == IF pdf.kind = "fam" THEN Pdf2(pdf.comps, xs)
                ELSE [W |-> pdf.W, e |-> [l1 |-> pdf.l1, h1 |-> pdf.h1, l2 |-> pdf.l2, h2 |-> pdf.h2],
                      cn |-> [NN |-> pdf.NN, LN |-> pdf.LN, NL |-> pdf.NL, LL |-> pdf.LL]]
+\* diagnosis only: the same density with the both-lethal corner mass dropped (ll = FALSE); used to NAME a
+\* rejected record whose value is exactly the quadrature without that corner term
+P2x(pdf, xs, ll) == LET P == P2(pdf, xs) IN IF ll THEN P ELSE [P EXCEPT !.cn.LL = "0"]
 
 \* ---- expected value E and quadrature allowance T (both for theta = 1) ----
 E1(c, pdf, ext) == LET P == P1(pdf, c.xs) IN Integrate1D("1", c.xs, P.w, c.S, c.neu, P.tneu, P.tdel, ext, Len(c.neu))
@@ -38,7 +41,8 @@ T1(c, pdf, ext) == LET P == P1(pdf, c.xs) m == Len(c.neu) IN
                    IF ext THEN Vec(m, LAMBDA k : RAdd(RMul(QTol(P.tneu), RAbs(c.neu[k])), RMul(QTol(P.tdel), RAbs(c.S[1][k]))))
                    ELSE VZero(m)
 M2(c) == Len(c.S[1][1])
-E2(c, pdf, ext) == LET P == P2(pdf, c.xs) IN Integrate2D("1", c.xs, P.W, c.S, P.e, P.cn, ext, M2(c))
+E2x(c, pdf, ext, ll) == LET P == P2x(pdf, c.xs, ll) IN Integrate2D("1", c.xs, P.W, c.S, P.e, P.cn, ext, M2(c))
+E2(c, pdf, ext) == E2x(c, pdf, ext, TRUE)
 ATol(w) == RAdd(EpsA, RMul(EpsR, RAbs(w)))
 T2(c, pdf, ext) == LET P == P2(pdf, c.xs) n == Len(c.xs) IN
                    IF ~ext THEN VZero(M2(c))
@@ -56,38 +60,47 @@ Cmp(d, mk, E, T, tag) ==
               (IsNum(d[k]) /\ RLeq(RAbs(RSub(d[k], E[k])), RAdd(RAdd(RMul(Tau, RAbs(E[k])), T[k]), Floor))))
          \cup F(tag \o "Mask", \A k \in 2..(Len(E) - 1) : ~mk[k])
 Judge(r, E, T) == IF Raised(r) THEN {"Raised"} ELSE Cmp(r.out.d, r.out.m, E, T, "")
+\* En = the expectation without the both-lethal corner term
+Judge2(r, E, T, En) == LET f == Judge(r, E, T) IN
+                       IF "Quadrature" \in f /\ Cmp(r.out.d, r.out.m, En, T, "") = {}
+                       THEN (f \ {"Quadrature"}) \cup {"BothLethalCornerMissing"} ELSE f
 
 \* ---- operations ----
 FInt1(r) == Judge(r, VScale(r.in.theta, E1(r.in.c1, r.in.pdf1, r.in.ext)), VScale(RAbs(r.in.theta), T1(r.in.c1, r.in.pdf1, r.in.ext)))
 PP1E(r) == PointPos1D(r.in.theta, E1(r.in.c1, r.in.pdf1, r.in.ext), r.in.pp, Len(r.in.c1.neu))
 PP1T(r) == VScale(RMul(RAbs(r.in.theta), RAbs(RSub("1", SumP(r.in.pp)))), T1(r.in.c1, r.in.pdf1, r.in.ext))
 FPP1(r) == Judge(r, PP1E(r), PP1T(r))
-FInt2(r) == Judge(r, VScale(r.in.theta, E2(r.in.c2, r.in.pdf2, r.in.ext)), VScale(RAbs(r.in.theta), T2(r.in.c2, r.in.pdf2, r.in.ext)))
+FInt2(r) == Judge2(r, VScale(r.in.theta, E2(r.in.c2, r.in.pdf2, r.in.ext)), VScale(RAbs(r.in.theta), T2(r.in.c2, r.in.pdf2, r.in.ext)),
+                   VScale(r.in.theta, E2x(r.in.c2, r.in.pdf2, r.in.ext, FALSE)))
 \* the square root is supplied by the recorder; it is checked here, not trusted
 SqrtOK(r) == RNonNeg(r.in.sq) /\ RLeq(RAbs(RSub(RMul(r.in.sq, r.in.sq), RMul(r.in.p1, r.in.p2))),
                                       RMul("1/100000000000000", RAdd(RMul(r.in.p1, r.in.p2), Floor)))
 QOf(r) == Quadrants(r.in.rho, r.in.p1, r.in.p2, r.in.sq)
-PP2E(r) == LET c == r.in.c2 P == P2(r.in.pdf2, c.xs) m == M2(c) IN
+PP2Ex(r, ll) == LET c == r.in.c2 P == P2(r.in.pdf2, c.xs) m == M2(c) IN
            PointPos2D(r.in.theta, QOf(r), r.in.pospos, PosNeg(c.xs, P.W, r.in.spn, m), NegPos(c.xs, P.W, r.in.snp, m),
-                      E2(c, r.in.pdf2, TRUE), m)
+                      E2x(c, r.in.pdf2, TRUE, ll), m)
+PP2E(r) == PP2Ex(r, TRUE)
 PP2T(r) == VScale(RMul(RAbs(r.in.theta), RAbs(QOf(r).nn)), T2(r.in.c2, r.in.pdf2, TRUE))
-FPP2(r) == F("SqrtTable", SqrtOK(r)) \cup Judge(r, PP2E(r), PP2T(r))
-FMix(r) == Judge(r, VScale(r.in.theta, Mixture(r.in.p2d, E1(r.in.c1, r.in.pdf1, r.in.ext), E2(r.in.c2, r.in.pdf2, r.in.ext))),
-                 VScale(RAbs(r.in.theta), Mixture(RAbs(r.in.p2d), T1(r.in.c1, r.in.pdf1, r.in.ext), T2(r.in.c2, r.in.pdf2, r.in.ext))))
+FPP2(r) == F("SqrtTable", SqrtOK(r)) \cup Judge2(r, PP2E(r), PP2T(r), PP2Ex(r, FALSE))
+FMix(r) == Judge2(r, VScale(r.in.theta, Mixture(r.in.p2d, E1(r.in.c1, r.in.pdf1, r.in.ext), E2(r.in.c2, r.in.pdf2, r.in.ext))),
+                  VScale(RAbs(r.in.theta), Mixture(RAbs(r.in.p2d), T1(r.in.c1, r.in.pdf1, r.in.ext), T2(r.in.c2, r.in.pdf2, r.in.ext))),
+                  VScale(r.in.theta, Mixture(r.in.p2d, E1(r.in.c1, r.in.pdf1, r.in.ext), E2x(r.in.c2, r.in.pdf2, r.in.ext, FALSE))))
     \* (Mixture(|p2d|, ..) = (1-|p2d|) T1 + |p2d| T2: for 0 <= p2d <= 1 these are the absolute weights)
 FMixPP(r) == F("SqrtTable", SqrtOK(r)) \cup
-             Judge(r, Mixture(r.in.p2d, PP1E(r), PP2E(r)), Mixture(RAbs(r.in.p2d), PP1T(r), PP2T(r)))
+             Judge2(r, Mixture(r.in.p2d, PP1E(r), PP2E(r)), Mixture(RAbs(r.in.p2d), PP1T(r), PP2T(r)),
+                    Mixture(r.in.p2d, PP1E(r), PP2Ex(r, FALSE)))
 FVou(r) == LET c1 == r.in.c1 c2 == r.in.c2 m == M2(c2)
                P == P1(r.in.pdf1, c2.xs)
                v == VourlakiW(r.in.pw, r.in.pc, r.in.pcp)
                m4 == MargTails(c2.xs, P.w, r.in.spn, P.tneu, P.tdel, m)
                m7 == MargTails(c2.xs, P.w, r.in.snp, P.tneu, P.tdel, m)
                tm(row) == Vec(m, LAMBDA k : RAdd(RMul(QTol(P.tneu), RAbs(row[Len(row)][k])), RMul(QTol(P.tdel), RAbs(row[1][k]))))
-               E == Vourlaki(r.in.theta, v, E1(c1, r.in.pdf1, TRUE), E2(c2, r.in.pdf2, TRUE), m7, r.in.pospos, m4)
+               Ex(ll) == Vourlaki(r.in.theta, v, E1(c1, r.in.pdf1, TRUE), E2x(c2, r.in.pdf2, TRUE, ll), m7, r.in.pospos, m4)
+               E == Ex(TRUE)
                T == VScale(RAbs(r.in.theta),
                            VAdd(VAdd(VScale(v.m5, T1(c1, r.in.pdf1, TRUE)), VScale(v.m6, T2(c2, r.in.pdf2, TRUE))),
                                 VAdd(VScale(v.m7, tm(r.in.snp)), VScale(v.m4, tm(r.in.spn)))))
-           IN  F("GridsDiffer", c1.xs = c2.xs) \cup Judge(r, E, T)
+           IN  F("GridsDiffer", c1.xs = c2.xs) \cup Judge2(r, E, T, Ex(FALSE))
 
 \* selection-blind cache and a density of total mass one whose quadrature is exact (piecewise linear):
 \* the total quadrature weight is one and the result is theta * common spectrum
@@ -101,7 +114,10 @@ FUnit1(r) == LET c == r.in.c1 P == P1(r.in.pdf1, c.xs) IN
 FUnit2(r) == LET c == r.in.c2 P == P2(r.in.pdf2, c.xs) IN
              F("UnitInput", AllSame2(c, r.in.common) /\ RLeq(RAbs(RSub(TotalWeight2D(c.xs, P.W, P.e, P.cn, TRUE), "1")), UnitTol))
              \cup (IF Raised(r) THEN {"Raised"}
-                   ELSE Cmp(r.out.d, r.out.m, VScale(r.in.theta, r.in.common), VScale(RAbs(r.in.theta), T2(c, r.in.pdf2, TRUE)), "Unit"))
+                   ELSE LET T == VScale(RAbs(r.in.theta), T2(c, r.in.pdf2, TRUE))
+                            f == Cmp(r.out.d, r.out.m, VScale(r.in.theta, r.in.common), T, "Unit")
+                        IN  IF "UnitQuadrature" \in f /\ Cmp(r.out.d, r.out.m, VScale(RMul(r.in.theta, RSub("1", P.cn.LL)), r.in.common), T, "Unit") = {}
+                            THEN (f \ {"UnitQuadrature"}) \cup {"BothLethalCornerMissing"} ELSE f)
 \* two calls that differ only in theta
 FThetaPair(r) == IF "raised" \in DOMAIN r.out THEN {"Raised"}
                  ELSE F("LinearInTheta", Len(r.out.d1) = Len(r.out.d2) /\ \A k \in 1..Len(r.out.d1) :
